@@ -34,7 +34,8 @@ REPO_BINS = ['sccache']
 THEOREMS = ['C12_identity_is_current', 'C12_no_cross_binary_results', 'C12_swap_back',
             'C12_distinct_binaries_never_share', 'C12_same_mtime_refuted', 'C12_shared_entry_refuted',
             'C12_window_refuted', 'C12_asfound_is_fixed_without_windows',
-            'C12_proxy_follows_selection', 'C12_proxy_memo_refuted', 'C12_rust_identity_sees_through_links']
+            'C12_proxy_follows_selection', 'C12_proxy_memo_refuted', 'C12_join_refuted',
+            'C12_rust_identity_sees_through_links']
 ASSUMPTIONS = [
     'premise of the property, explicit as the boolean `wf_history` (= `mtime_tracks_content` on the recorded requests): two '
     'requests naming the same compiler path that see the same mtime there (through links, as stat does) see the same bytes '
@@ -62,6 +63,16 @@ ASSUMPTIONS = [
     'sysroot libraries as files or as links) + translator checks on RustupProxy / resolve_proxied_executable / Rust::new',
     'an in-place rewrite of a regular file (`rewrite`, same inode) is for the model the same as replacing it (`swap`); the '
     'generators rewrite regular files only',
+    'a symlinked DIRECTORY component of a compiler path (`retargetdir`) is for the model the three same-named final-component '
+    'links it amounts to for stat / canonicalize / exec; the generators never create files through a linked directory',
+    'within one history all fake compilers report the same version text (revision-stamped in half of the histories): the identity '
+    'must come from the bytes.  Not modelled: the version text taken from the binary that answered the probe combined with the '
+    'digest of the file read after a window (a mixed identity that matches nothing: a harmless extra miss)',
+    'rustc, long detection (RHoldBegin..RHoldEnd in Model/RustToolchain.v, held inside `--print=sysroot` in leg rustworld): the '
+    'request that overlapped its own detection is keyed on the build that named the sysroot and compiled by the one in place at '
+    'the end — it is not constrained by the property and its crate is reserved (never requested otherwise); requests ARRIVING '
+    'inside the window are constrained.  If such a request does not finish within 10 s the driver releases the held detection '
+    '(only a server that makes it wait gets there)',
 ]
 TRUSTED = [
     'harness/src/bin/c12.rs and the e2e driver in lib/props/c12.py: the shell compilers / gcc wrappers, their invocation log, '
@@ -102,6 +113,9 @@ def apply_op(fs, op):
         r = fs.resolve((op[1] % 8, op[2] % 3))
         if r:
             fs.n[r[0]] = ('f', r[1], op[3])
+    elif t == b'retargetdir':
+        for nm in range(3):
+            fs.n[(op[1] % 8, nm)] = ('l', (op[2] % 8, nm))
     elif t == b'compile' and len(op) > 4:
         for e in op[4]:
             apply_op(fs, e)
@@ -276,6 +290,30 @@ def gen_inplace(rng, p=None):
         for _ in range(rng.range(1, 2)):
             ops.append([b'compile', p[0], p[1], rng.below(2)])
         last = x
+    return ops
+
+
+def gen_dirlink(rng, nm=None):
+    """toolchains installed side by side in directories a, b(, c); the compiler path goes through a DIRECTORY link
+    (d6 or d7 -> a) that is retargeted back and forth; the files themselves are never touched."""
+    nm = rng.below(3) if nm is None else nm
+    dirs = rng.shuffle([0, 1, 2, 3])[:rng.range(2, 3)]
+    bins = rng.shuffle(GOOD)
+    L = rng.choice([6, 7])
+    ops = []
+    m0 = rng.range(1, 20)
+    same_mtime = rng.chance(1, 4)       # side-by-side installs from one package: equal timestamps, different files
+    for i, d in enumerate(dirs):
+        ops.append([b'swap', d, nm, bins[i], m0 if same_mtime else m0 + 3 * i])
+    cur = None
+    for _ in range(rng.range(3, 6)):
+        d = rng.choice([x for x in dirs if x != cur])
+        cur = d
+        ops.append([b'retargetdir', L, d])
+        for _ in range(rng.range(1, 2)):
+            ops.append([b'compile', L, nm, rng.below(2)])
+        if rng.chance(1, 5):
+            ops.append([b'compile', d, nm, rng.below(2)])
     return ops
 
 
@@ -460,6 +498,8 @@ def neighbours(case):
             yield gen_window(rng, p)
         for k in range(6):
             yield gen_inplace(rng, p)
+        for k in range(6):
+            yield gen_dirlink(rng, p[1])
     for i in range(1, len(case)):
         yield case[i:] + case[:i]
     for i, op in enumerate(case):
@@ -483,6 +523,8 @@ def gen_inproc(rng, tier):
         out.append(gen_window(rng))
         if i % 2 == 0:
             out.append(gen_inplace(rng))
+        else:
+            out.append(gen_dirlink(rng))
     return out
 
 
@@ -535,11 +577,17 @@ done
 case "$src" in *testfile.c) [ $mode = E ] && mode=D;; esac
 echo "%(id)d $mode" >> %(log)s
 if [ $mode = D ] && [ -e %(root)s/arm ]; then rm -f %(root)s/arm; echo r > %(root)s/ready; read x < %(root)s/go; fi
+# what a compiler says about itself does not tell two builds apart (per history: one revision-stamped version, or one plain one)
+if [ $mode = D ]; then echo "compiler_id=gcc"; echo 'compiler_version=%(version)s'; exit 0; fi
 /usr/bin/gcc "$@"; rc=$?
 if [ $rc -eq 0 ] && [ $mode = C ] && [ -n "$out" ] && [ -f "$out" ]; then printf '\nWRAPPER_ID=%(id)d\n' >> "$out"; fi
 exit $rc
 '''
 BASE = 1500000000
+
+
+def wrapper_version(stamped):
+    return '"12.2.0 (https://git.example.org/toolchain/gcc 6009708b4367171ccdbf4b5905cb6a803753fe18)"' if stamped else '"12.2.0"'
 
 
 def free_port():
@@ -638,11 +686,18 @@ def e2e_history(binp, case, idx):
                 # written by a child process: this driver is multi-threaded, and a file it had open for writing
                 # while another thread forks would be ETXTBSY for whoever executes it next
                 subprocess.run(['/bin/sh', '-c', 'cat > "$0" && chmod 755 "$0"', tmp],
-                               input=(WRAPPER % {'id': op[3], 'log': log, 'root': root}).encode(), check=True)
+                               input=(WRAPPER % {'id': op[3], 'log': log, 'root': root, 'version': wrapper_version(len(case) % 2 == 1)}).encode(), check=True)
                 m = op[4]
                 ns = (BASE + m // 4) * 10**9 + (m % 4) * 250000000
                 os.utime(tmp, ns=(ns, ns))
                 os.rename(tmp, p)          # mv: the path is a new regular file, mtime preserved
+            elif t == b'retargetdir':
+                l = os.path.join(root, 'd%d' % (op[1] % 8))
+                if os.path.islink(l):
+                    os.unlink(l)
+                else:
+                    shutil.rmtree(l, ignore_errors=True)
+                os.symlink(os.path.join(root, 'd%d' % (op[2] % 8)), l)    # ln -sfn on a directory
             elif t == b'rewrite':
                 p = P(op[1], op[2])
                 if os.path.islink(p) or not os.path.isfile(p):
@@ -652,7 +707,7 @@ def e2e_history(binp, case, idx):
                         pass
                 # `cat new > path`: in place, the file keeps its inode
                 subprocess.run(['/bin/sh', '-c', 'cat > "$0" && chmod 755 "$0"', p],
-                               input=(WRAPPER % {'id': op[3], 'log': log, 'root': root}).encode(), check=True)
+                               input=(WRAPPER % {'id': op[3], 'log': log, 'root': root, 'version': wrapper_version(len(case) % 2 == 1)}).encode(), check=True)
                 m = op[4]
                 ns = (BASE + m // 4) * 10**9 + (m % 4) * 250000000
                 os.utime(p, ns=(ns, ns))
@@ -902,7 +957,12 @@ def e2e_rustup(binp):
 RW_TOOLCHAIN = r"""#!/bin/sh
 # rustc build %(b)d
 case "$1" in
-  --print=sysroot) echo "%(sys)s"; exit 0 ;;
+  --print=sysroot)
+    echo "%(sys)s"
+    # a LONG detection: this build has named its sysroot (that fixes the identity); the rest of the detection
+    # lasts until the driver releases it
+    if [ -e %(root)s/arm ]; then rm -f %(root)s/arm; echo r > %(root)s/ready; read x < %(root)s/go; fi
+    exit 0 ;;
   +*) echo "error: not a rustup proxy" >&2; exit 1 ;;
 esac
 outdir=; prev=
@@ -988,8 +1048,12 @@ def e2e_rustworld(binp, real, case, idx, links):
     cwd = os.path.join(root, 'w')
     cache = os.path.join(root, 'cache')
     env = {'PATH': '/usr/bin:/bin', 'HOME': root, 'SCCACHE_DIR': cache, 'SCCACHE_IDLE_TIMEOUT': '120', 'TMPDIR': root}
-    for n in (0, 1):
+    for n in (0, 1, 3):
         open(os.path.join(cwd, 'c%d.rs' % n), 'w').write('pub fn f%d() -> u32 { %d }\n' % (n, n))
+    os.mkfifo(os.path.join(root, 'ready'))
+    os.mkfifo(os.path.join(root, 'go'))
+    ready_fd = os.open(os.path.join(root, 'ready'), os.O_RDONLY | os.O_NONBLOCK)
+    held = {}        # the request whose detection is being held: proc, src, path, released
 
     def script(path, text, ns=None):
         subprocess.run(['/bin/sh', '-c', 'cat > "$0.tmp" && chmod 755 "$0.tmp"', path], input=text.encode(), check=True)
@@ -1041,40 +1105,109 @@ def e2e_rustworld(binp, real, case, idx, links):
                 d = os.path.join(root, 'toolchains', str(op[1]), 'bin')
                 os.makedirs(d, exist_ok=True)
                 m = op[3]
-                script(os.path.join(d, 'rustc'), RW_TOOLCHAIN % {'b': op[2], 'sys': sysroot(op[2]), 'real': real},
+                script(os.path.join(d, 'rustc'), RW_TOOLCHAIN % {'b': op[2], 'sys': sysroot(op[2]), 'real': real, 'root': root},
                        (BASE + m // 4) * 10**9 + (m % 4) * 250000000)
                 tc[op[1]] = (op[2], m)
             elif t == b'default':
                 open(os.path.join(root, 'rustup/default'), 'w').write('%d\n' % op[1])
                 dflt[0] = op[1]
-            elif t in (b'req', b'reqd'):
+            elif t in (b'req', b'reqd', b'holdbegin'):
+                if t == b'holdbegin' and held:
+                    continue
                 path = proxy if t == b'req' else os.path.join(root, 'toolchains', str(op[1]), 'bin', 'rustc')
                 sel = dflt[0] if t == b'req' else op[1]
                 src = op[1] if t == b'req' else op[2]
                 cur = list(tc[sel]) if sel in tc else []
-                for d in ('out', 'dout'):
+                outd = 'outh' if t == b'holdbegin' else 'out'
+                for d in (outd, 'dout'):
                     shutil.rmtree(os.path.join(cwd, d), ignore_errors=True)
                     os.makedirs(os.path.join(cwd, d))
                 args = ['--crate-name', 'c%d' % src, '--edition=2021', 'c%d.rs' % src, '--crate-type', 'lib', '--emit=dep-info,link',
                         '-C', 'opt-level=0']
-                r = sccache(path, *args, '--out-dir', 'out')
                 # the path run DIRECTLY: which build does it lead to now
                 subprocess.run([path] + args + ['--out-dir', 'dout'], env=env, cwd=cwd, stdout=subprocess.PIPE, stderr=subprocess.PIPE, timeout=300)
                 direct = stamp_of(os.path.join(cwd, 'dout', 'libc%d.rlib' % src))
-                got = stamp_of(os.path.join(cwd, 'out', 'libc%d.rlib' % src))
+                if cur and direct != cur[0]:
+                    problems.append('request %d: driver problem — the path run directly gave build %d, expected %d' % (len(events), direct, cur[0]))
+                if t == b'holdbegin':
+                    open(os.path.join(root, 'arm'), 'w').close()
+                pr = subprocess.Popen([binp, path] + args + ['--out-dir', outd], env=env, cwd=cwd, stdout=subprocess.PIPE, stderr=subprocess.PIPE)
+                is_held = False
+                t0 = time.time()
+                # a request arriving while a detection is held finishes on its own on a server where every request
+                # detects for itself; if it does not (it waits for the held one), the held one is released after 10 s
+                limit = 300 if not (held and not held.get('released')) else 10
+                while pr.poll() is None:
+                    if t == b'holdbegin':
+                        try:
+                            if os.read(ready_fd, 8):
+                                is_held = True
+                                break
+                        except BlockingIOError:
+                            pass
+                    if time.time() - t0 > limit:
+                        if held and not held.get('released'):
+                            with open(os.path.join(root, 'go'), 'w') as g:
+                                g.write('g\n')
+                            held['released'] = True
+                            limit = 300
+                        else:
+                            break
+                    time.sleep(0.005)
+                if is_held:
+                    held.update(proc=pr, src=src, t=op[1], released=False)
+                    events.append([b'pending', 0, cur, b'held', list(op)])
+                    continue
+                pr.communicate(timeout=300)
+                if t == b'holdbegin':
+                    try:
+                        os.unlink(os.path.join(root, 'arm'))
+                    except OSError:
+                        pass
+                got = stamp_of(os.path.join(cwd, outd, 'libc%d.rlib' % src))
                 now = counters()
                 dh, dm = now[0] - prev[0], now[1] - prev[1]
                 prev = now
-                res = b'fail' if r.returncode != 0 else b'hit' if (dh, dm) == (1, 0) else b'miss' if (dh, dm) == (0, 1) else ('stats_%d_%d' % (dh, dm)).encode()
-                if cur and direct != cur[0]:
-                    problems.append('request %d: driver problem — the path run directly gave build %d, expected %d' % (len(events), direct, cur[0]))
-                events.append([res, got if res in (b'hit', b'miss') else 0, cur])
+                res = b'fail' if pr.returncode != 0 else b'hit' if (dh, dm) == (1, 0) else b'miss' if (dh, dm) == (0, 1) else ('stats_%d_%d' % (dh, dm)).encode()
+                events.append([res, got if res in (b'hit', b'miss') else 0, cur, b'held' if t == b'holdbegin' else b'plain', list(op)])
+            elif t == b'holdend':
+                if not held:
+                    continue
+                if not held.get('released'):
+                    with open(os.path.join(root, 'go'), 'w') as g:
+                        g.write('g\n')
+                pr = held['proc']
+                pr.communicate(timeout=300)
+                src, tt = held['src'], held['t']
+                held.clear()
+                cur = list(tc[tt]) if tt in tc else []
+                got = stamp_of(os.path.join(cwd, 'outh', 'libc%d.rlib' % src))
+                now = counters()
+                dh, dm = now[0] - prev[0], now[1] - prev[1]
+                prev = now
+                res = b'fail' if pr.returncode != 0 else b'hit' if (dh, dm) == (1, 0) else b'miss' if (dh, dm) == (0, 1) else ('stats_%d_%d' % (dh, dm)).encode()
+                events.append([res, got if res in (b'hit', b'miss') else 0, cur, b'held', list(op)])
     finally:
+        if held and held.get('proc') is not None and held['proc'].poll() is None:
+            try:
+                if not held.get('released'):
+                    with open(os.path.join(root, 'go'), 'w') as g:
+                        g.write('g\n')
+                held['proc'].communicate(timeout=60)
+            except Exception:
+                try:
+                    held['proc'].kill()
+                except Exception:
+                    pass
         try:
             sccache('--stop-server')
         except Exception:
             pass
         kill_servers(cache)
+        try:
+            os.close(ready_fd)
+        except OSError:
+            pass
         shutil.rmtree(root, ignore_errors=True)
     return events, problems
 
@@ -1084,9 +1217,10 @@ def monitor_rustworld(case, events):
     leads to now; a build that is back gets its earlier result; nothing is shared between builds."""
     vs = []
     served = set()
-    reqs = [op for op in case if op[0] in (b'req', b'reqd')]
-    for i, (op, ev) in enumerate(zip(reqs, events)):
-        res, prod, cur = ev[0], ev[1], ev[2]
+    for i, ev in enumerate(events):
+        res, prod, cur, tag, op = ev[0], ev[1], ev[2], ev[3], ev[4]
+        if tag == b'held':
+            continue      # the request overlapped its own detection (and the change): the property does not constrain it
         src = op[1] if op[0] == b'req' else op[2]
         where = 'request %d (%s, crate %d)' % (i, 'through the rustup proxy' if op[0] == b'req' else 'toolchain %d' % op[1], src)
         if not cur:
@@ -1107,6 +1241,28 @@ def monitor_rustworld(case, events):
     return vs
 
 
+def gen_rustjoin(rng):
+    """a LONG detection of the rustc at a toolchain path (its crate, 3, is reserved), the build replaced while it runs,
+    requests arriving inside the window, then the old build back."""
+    t = rng.range(1, 3)
+    a, b = rng.shuffle([1, 2, 3, 4])[:2]
+    s0, s1 = rng.shuffle([0, 1])
+    ops = [[b'install', t, a, 20 + 3 * a]]
+    if rng.chance(1, 2):
+        ops += [[b'reqd', t, s0], [b'install', t, a, 40 + 3 * a]]     # known already, reinstalled: re-detection
+        ma = 40 + 3 * a
+    else:
+        ma = 20 + 3 * a
+    ops.append([b'holdbegin', t, 3])
+    ops.append([b'install', t, b, 20 + 3 * b])
+    for _ in range(rng.range(1, 2)):
+        ops.append([b'reqd', t, rng.choice([s0, s1])])
+    ops.append([b'holdend'])
+    ops.append([b'reqd', t, s1])
+    ops += [[b'install', t, a, ma], [b'reqd', t, s1], [b'reqd', t, s0]]
+    return ops
+
+
 def run_rustworld(rep, binp):
     real = real_rustc()
     if not real:
@@ -1114,7 +1270,7 @@ def run_rustworld(rep, binp):
         return
     rng = Rng(rep.seed).fork('C12:rustworld')
     n = 40 if rep.tier == 'thorough' else 6
-    cases = [c for c in RUSTWORLD_SCENARIOS] + pipeline.corpus_cases(ID, 'rustworld') + [gen_rustworld(rng) for _ in range(n)]
+    cases = [c for c in RUSTWORLD_SCENARIOS] + pipeline.corpus_cases(ID, 'rustworld') + [gen_rustworld(rng) for _ in range(n)] + [gen_rustjoin(rng) for _ in range(max(3, n // 2))]
     layouts = [i % 2 == 1 for i in range(len(cases))]
     layouts[0], layouts[1] = False, True
     cases = cases[:2] + [cases[0], cases[1]] + cases[2:]
@@ -1143,7 +1299,7 @@ def run_rustworld(rep, binp):
             if nviol <= 3:
                 rep.violation('property', 'rustworld', tagged, v)
         model = [e[:3] for e in pipeline.parse_out(m)]
-        if model != events:
+        if model != [e[:3] for e in events]:
             dis += 1
             if dis <= 2 and not nviol:
                 rep.violation('correspondence', 'rustworld', tagged,
@@ -1168,6 +1324,7 @@ def gen_e2e(rng, tier):
         out.append(gen_recycled(rng, good_only=True))
         out.append(gen_window(rng))
         out.append(gen_inplace(rng))
+        out.append(gen_dirlink(rng))
     # the client refuses a path that does not exist: keep only requests on paths that resolve
     clean = []
     for case in out:
